@@ -114,6 +114,12 @@ Proof.
   intros Hn H1 H2 H3. split; apply fill_loop_is_mirror_fill; auto; congruence.
 Qed.
 
+(* every write of the fill loop is inside the arrays of length npts (no totalisation of Z.to_nat is
+   ever exercised): for 1 <= i <= m = (npts+1)/2 *)
+Lemma fill_indices_in_bounds npts i : (1 <= npts)%Z -> (1 <= i <= F.m_of npts)%Z ->
+  (0 <= F.idx_lo i < npts)%Z /\ (0 <= F.idx_hi npts i < npts)%Z /\ (F.idx_lo i <= F.idx_hi npts i)%Z.
+Proof. unfold F.m_of, F.idx_lo, F.idx_hi. lia. Qed.
+
 Lemma roots_length orig fuel n nf : forall coss z1 pp r,
   F.roots orig fuel n nf coss z1 pp = Some r -> length r = length coss.
 Proof.
@@ -136,6 +142,53 @@ Proof.
   assert (Hz : npts = Z.of_nat (Z.to_nat npts)) by lia.
   rewrite Hz at 1 3.
   rewrite !fill_loop_is_mirror_fill; try reflexivity; rewrite ?map_length; try lia; rewrite <- Hz; congruence.
+Qed.
+
+(* ---- consequences for the float model, for ALL inputs: gauleg returns npts abscissae and npts
+   weights, and the weights are EXACTLY (bit for bit) symmetric: w[npts+1-i-1] = w[i-1] is a copy *)
+Lemma nth_mirror_fill {A} (d : A) n (lo hi : list A) : length hi = length lo ->
+  (n <= 2 * length lo <= n + 1)%nat -> forall k, (k < n)%nat ->
+  nth k (mirror_fill n lo hi) d = if (k <? n - length lo)%nat then nth k lo d else nth (n - 1 - k) hi d.
+Proof.
+  intros Hhi Hm k Hk. unfold mirror_fill. rewrite Hhi.
+  destruct (Nat.ltb_spec k (n - length lo)) as [Hlt|Hge].
+  - rewrite app_nth1 by (rewrite firstn_length; lia). apply nth_firstn_lt'. exact Hlt.
+  - rewrite app_nth2 by (rewrite firstn_length; lia).
+    rewrite firstn_length, Nat.min_l by lia.
+    rewrite rev_nth by (rewrite Hhi; lia). rewrite Hhi. f_equal. lia.
+Qed.
+
+Lemma length_mirror_fill {A} n (lo hi : list A) : length hi = length lo ->
+  (n <= 2 * length lo <= n + 1)%nat -> length (mirror_fill n lo hi) = n.
+Proof. intros Hhi Hm. unfold mirror_fill. rewrite app_length, firstn_length, rev_length. lia. Qed.
+
+Lemma mirror_fill_self_palindrome {A} n (w : list A) :
+  (n <= 2 * length w <= n + 1)%nat -> rev (mirror_fill n w w) = mirror_fill n w w.
+Proof.
+  intros Hm. destruct w as [|d0 w'] eqn:Ew.
+  - simpl in Hm. assert (n = 0)%nat by lia. subst n. reflexivity.
+  - rewrite <- Ew in *. assert (L : length (mirror_fill n w w) = n) by (apply length_mirror_fill; auto).
+    apply nth_ext with d0 d0; [rewrite rev_length; reflexivity|].
+    intros k Hk. rewrite rev_length, L in Hk.
+    rewrite rev_nth by (rewrite L; exact Hk). rewrite L.
+    rewrite !(nth_mirror_fill d0) by (auto; lia).
+    destruct (Nat.ltb_spec (n - S k) (n - length w)), (Nat.ltb_spec k (n - length w)); try lia; f_equal; lia.
+Qed.
+
+Theorem gauleg_lengths_and_weight_symmetry orig x1 x2 npts coss xs ws :
+  F.gauleg_gen orig x1 x2 npts coss = Ok (xs, ws) ->
+  (0 < npts)%Z /\ length xs = Z.to_nat npts /\ length ws = Z.to_nat npts /\ rev ws = ws.
+Proof.
+  unfold F.gauleg_gen, F.reject_npts.
+  destruct (Z.leb_spec npts 0) as [Hn|Hn]; [discriminate|].
+  destruct (Nat.eqb_spec (length coss) (Z.to_nat (F.m_of npts))) as [Hc|Hc]; simpl; [|discriminate].
+  destruct (F.roots orig F.NEWTON_FUEL (Z.to_nat npts) (F.of_Z npts) coss F.Z1_INIT F.PP_INIT) as [r|] eqn:E; [|discriminate].
+  apply roots_length in E. intros H. injection H as <- <-.
+  assert (Hm : (Z.to_nat npts <= 2 * length r <= Z.to_nat npts + 1)%nat) by (unfold F.m_of in Hc; lia).
+  split; [exact Hn|].
+  split; [apply length_mirror_fill; rewrite ?map_length; auto|].
+  split; [apply length_mirror_fill; rewrite ?map_length; auto|].
+  apply mirror_fill_self_palindrome. rewrite map_length. exact Hm.
 Qed.
 
 (* ------------------------------------------------------------------ (2) QGauss2 shapes *)
